@@ -257,6 +257,8 @@ def _sqlite(check: Check):
   # reading back: interleaved passes over the written file must not steal each other's rows
   from fjsa.props import c08
   c08._cursors(check, 'R-PAIR.cursor')
+  # every client that was written can be looked up again, whatever its size (a stored size of 0 is a size, not "missing")
+  c08._keyerror(check)
   rd = repo.func(SQL, 'decompress_and_deserialize')
   rff = FuncFlow.of(repo, rd)
   check.analysed(rd)
